@@ -563,7 +563,7 @@ class SamplerProp(common.Prop):
                      'From Coq Require Import Floats.PrimFloat.\n'
                      'From CGV Require Import Base.PyBase Base.PyVal Base.NxGraph Sample.SampleImpl Sample.SampleCheck.')
     corr_fn = 'corr_ok'
-    shard = 25
+    shard = 12      # small shards: a case file stays below ~0.5 GB resident (the shared machine kills the largest coqc when memory runs out)
     quick_cases = 400
     thorough_cases = 2500
     extended_cases = 400
@@ -590,6 +590,37 @@ class SamplerProp(common.Prop):
 
     def nontrivial(self, case, impl):
         return 'final' in impl and len(impl.get('added', [])) >= 1
+
+    def python_oracle(self, case, impl):
+        """Python mirror used only when the Coq side cannot judge a case (case file does not evaluate, observation
+        not printable): judges the RETURNED molecule conservatively (connected; keys 0..n-1; all-atom: the integer
+        bond orders of a heavy atom within its largest usual valence add up to one of its usual valences)"""
+        if 'final' not in impl or '!' in case['frags']:
+            return 0
+        g = impl['final']
+        nodes = {n: d for n, d in g['nodes']}
+        gr = nx.Graph()
+        gr.add_nodes_from(nodes)
+        gr.add_edges_from((u, v) for u, v, _ in g['edges'])
+        if len(gr) and not nx.is_connected(gr):
+            return 1
+        if sorted(nodes) != list(range(len(nodes))):
+            return 6
+        if case['aa'] and self.id == 'C16':
+            from pysmiles.smiles_helper import valence
+            for n, d in nodes.items():
+                if d.get('element') in (None, 'H', '*'):
+                    continue
+                orders = [ed.get('order', 1) for u, v, ed in g['edges'] if n in (u, v)]
+                if any(not isinstance(o, int) or isinstance(o, bool) for o in orders):
+                    continue
+                try:
+                    vals = valence({'element': d['element'], 'charge': d.get('charge', 0)})
+                except Exception:
+                    continue
+                if vals and sum(orders) <= max(vals) and sum(orders) not in vals:
+                    return 7
+        return 0
 
     def case_class(self, case, impl):
         if 'skip' in impl:
